@@ -7,7 +7,10 @@ import prop
 import streams
 from common import sub_seed
 
-THEOREMS = ["LNN.C20_local", "LNN.C20_verdict_final", "LNN.C20_restricted_not_tighter"]
+THEOREMS = ["LNN.C20_local",
+            "LNN.C20_local_pass",
+            "LNN.C20_verdict_final",
+            "LNN.C20_restricted_not_tighter"]
 MODULES = ["LnnVerif.Props.C20"]
 FACETS = {"bounds", "reported", "contra"}
 
